@@ -167,6 +167,9 @@ func (ex *Exec) contractCall(st *State, in ssa.CallInstruction, callee *ssa.Func
 	fc := ex.fc
 	root := st.frames[0]
 	sig := callee.Signature
+	if c.Extern {
+		fc.noteAssumption("assumed library contract (not verified): " + name)
+	}
 	// bind formals
 	formals := map[string]Val{}
 	bind := func(i int, n string) {
@@ -469,6 +472,9 @@ func (ex *Exec) invoke(st *State, fr *Frame, in *ssa.Call, args []SVal) bool {
 func (ex *Exec) contractCallNamed(st *State, in ssa.CallInstruction, name string, c *Contract, args []SVal, sig *types.Signature) {
 	fc := ex.fc
 	root := st.frames[0]
+	if c.Extern {
+		fc.noteAssumption("assumed library contract (not verified): " + name)
+	}
 	formals := map[string]Val{}
 	for i, a := range args {
 		if a.T != nil {
